@@ -1,96 +1,742 @@
-(* Round trips of the text forms (Bech32Iface.v). *)
-From CSL Require Import Base.Prelude Cbor.Head Cbor.HeadProofs Addr.Crc32 Addr.Crc32Proofs Addr.Byron Addr.ByronProofs
-  Addr.Base58 Addr.Base58Proofs Addr.VarNat Addr.VarNatProofs Addr.Shelley Addr.ShelleyProofs Addr.Bech32Iface.
+(* Proofs about the Bech32 model (Bech32.v): the checksum the writer appends always verifies
+   (polymod is XOR-linear), 8 -> 5 -> 8 bit conversion is the identity on byte strings, and
+   decode (encode hrp data) = Ok (lower-cased hrp, data) for every valid HRP and ALL data. *)
+From Coq Require Import Btauto.
+From CSL Require Import Base.Prelude Addr.Crc32Proofs Addr.Bech32.
 Local Open Scope N_scope.
 
-Section Bech32.
-  (* the external crate *)
-  Variable b32_encode : list N -> bytes -> option (list N).
-  Variable b32_decode : list N -> option (list N * bytes).
-  (* its law: what encode produced decodes to the same payload (under some spelling of the prefix) *)
-  Hypothesis b32_law : forall hrp data s, b32_encode hrp data = Some s ->
-    exists hrp', b32_decode s = Some (hrp', data).
+(* ================= 1. the checksum ================= *)
+Lemma sel_spec b i g n : N.testbit (sel b i g) n = N.testbit b i && N.testbit g n.
+Proof. unfold sel. destruct (N.testbit b i); [reflexivity|apply N.bits_0]. Qed.
 
-  (* C11_bech32: for every prefix, given or default *)
-  Theorem bech32_roundtrip prefix a s : wf_address a ->
-    to_bech32 b32_encode prefix a = Ok s -> from_bech32 b32_decode s = Ok a.
-  Proof.
-    intros Hwf H. unfold to_bech32 in H.
-    destruct (match prefix with Some p => Ok p | None => default_prefix a end) as [p| | |]; cbn [bind] in H; try discriminate.
-    destruct (b32_encode p (to_bytes a)) as [s'|] eqn:E; [|discriminate]. injection H as <-.
-    destruct (b32_law _ _ _ E) as [hrp' D]. unfold from_bech32. rewrite D. apply address_roundtrip, Hwf.
-  Qed.
-End Bech32.
+(* one step is linear over GF(2): xor of states and xor of symbols give the xor of the results *)
+Lemma step_linear c1 c2 v1 v2 :
+  polymod_step (N.lxor c1 c2) (N.lxor v1 v2) = N.lxor (polymod_step c1 v1) (polymod_step c2 v2).
+Proof.
+  unfold polymod_step. apply N.bits_inj. intros n.
+  rewrite !N.lxor_spec, !sel_spec, !N.shiftr_spec', !N.lxor_spec.
+  destruct (N.lt_ge_cases n 5) as [H|H].
+  - rewrite !N.shiftl_spec_low by exact H. btauto.
+  - rewrite !N.shiftl_spec_high' by exact H. rewrite !N.land_spec, !N.lxor_spec. btauto.
+Qed.
 
-(* the default prefix is a function of kind and network id *)
-Theorem default_prefix_table a :
-  default_prefix a =
-  match kind a, network_id a with
-  | KMalformed, _ => Ok (s_addr ++ s_malformed)
-  | KReward, Ok n => Ok (s_stake ++ (if n =? 0 then s_test else []))
-  | _, Ok n => Ok (s_addr ++ (if n =? 0 then s_test else []))
-  | _, Err => Err
-  | _, Panic => Panic
-  | _, OutOfFuel => OutOfFuel
+Lemma polymod_from_linear l : forall c1 c2,
+  polymod_from (N.lxor c1 c2) (map (fun p => N.lxor (fst p) (snd p)) l) =
+  N.lxor (polymod_from c1 (map fst l)) (polymod_from c2 (map snd l)).
+Proof.
+  induction l as [|[a b] t IH]; intros c1 c2; [reflexivity|].
+  unfold polymod_from in *. cbn [map fold_left fst snd]. rewrite step_linear. apply IH.
+Qed.
+
+Lemma testbit_small v k n : v < 2 ^ k -> k <= n -> N.testbit v n = false.
+Proof.
+  intros Hv Hk. destruct (N.eq_dec v 0) as [->|Hz]; [apply N.bits_0|].
+  apply N.bits_above_log2. apply N.log2_lt_pow2; [lia|].
+  eapply N.lt_le_trans; [exact Hv|]. apply N.pow_le_mono_r; lia.
+Qed.
+
+Lemma land_disj a v k : a mod 2 ^ k = 0 -> v < 2 ^ k -> N.land a v = 0.
+Proof.
+  intros Ha Hv. apply N.bits_inj. intros n. rewrite N.land_spec, N.bits_0.
+  destruct (N.lt_ge_cases n k) as [H|H].
+  - assert (E : a = a / 2 ^ k * 2 ^ k).
+    { pose proof (N.div_mod a (2 ^ k) ltac:(apply N.pow_nonzero; lia)). lia. }
+    rewrite E, N.mul_pow2_bits_low by exact H. reflexivity.
+  - rewrite (testbit_small v k n Hv H). apply andb_false_r.
+Qed.
+
+Lemma lxor_disj a v k : a mod 2 ^ k = 0 -> v < 2 ^ k -> N.lxor a v = a + v.
+Proof. intros Ha Hv. symmetry. apply N.add_nocarry_lxor. eapply land_disj; eassumption. Qed.
+
+Lemma lor_disj a v k : a mod 2 ^ k = 0 -> v < 2 ^ k -> N.lor a v = a + v.
+Proof.
+  intros Ha Hv. rewrite <- N.lxor_lor by (eapply land_disj; eassumption).
+  eapply lxor_disj; eassumption.
+Qed.
+
+Lemma sel_zero i g : sel 0 i g = 0.
+Proof. unfold sel. now rewrite N.bits_0. Qed.
+
+(* while the state is short no generator is selected: the step just appends the symbol *)
+Lemma step_small c v : c < 33554432 -> v < 32 -> polymod_step c v = c * 32 + v.
+Proof.
+  intros Hc Hv. unfold polymod_step.
+  rewrite N.shiftr_div_pow2. change (2 ^ 25) with 33554432. rewrite N.div_small by exact Hc.
+  rewrite !sel_zero, !N.lxor_0_r.
+  change 33554431 with (N.ones 25). rewrite N.land_ones. change (2 ^ 25) with 33554432.
+  rewrite N.mod_small by exact Hc. rewrite N.shiftl_mul_pow2. change (2 ^ 5) with 32.
+  apply (lxor_disj (c * 32) v 5); [change (2 ^ 5) with 32; apply N.mod_mul; lia|exact Hv].
+Qed.
+
+(* the state stays below 2^30 *)
+Lemma step_bound c v : v < 32 -> polymod_step c v < 2 ^ 30.
+Proof.
+  intros Hv. unfold polymod_step.
+  assert (G : forall b i g, g < 2 ^ 30 -> sel b i g < 2 ^ 30).
+  { intros b i g Hg. unfold sel. destruct (N.testbit b i); [exact Hg|]. apply N.neq_0_lt_0. apply N.pow_nonzero. lia. }
+  repeat apply lxor_lt_pow2; try (apply G; vm_compute; reflexivity).
+  - rewrite N.shiftl_mul_pow2. change 33554431 with (N.ones 25). rewrite N.land_ones.
+    pose proof (N.mod_lt c (2 ^ 25) ltac:(apply N.pow_nonzero; lia)).
+    change (2 ^ 30) with (2 ^ 25 * 2 ^ 5). apply N.mul_lt_mono_pos_r; [vm_compute; reflexivity|exact H].
+  - eapply N.lt_trans; [exact Hv|vm_compute; reflexivity].
+Qed.
+
+Lemma polymod_from_app c l1 l2 : polymod_from c (l1 ++ l2) = polymod_from (polymod_from c l1) l2.
+Proof. unfold polymod_from. apply fold_left_app. Qed.
+
+(* six symbols fed into the zero state spell the number they are the base-32 digits of *)
+Lemma polymod_from_zero6 v0 v1 v2 v3 v4 v5 :
+  v0 < 32 -> v1 < 32 -> v2 < 32 -> v3 < 32 -> v4 < 32 -> v5 < 32 ->
+  polymod_from 0 [v0; v1; v2; v3; v4; v5] = ((((v0 * 32 + v1) * 32 + v2) * 32 + v3) * 32 + v4) * 32 + v5.
+Proof.
+  intros. unfold polymod_from. cbn [fold_left].
+  rewrite (step_small 0 v0) by lia. rewrite (step_small _ v1) by lia.
+  rewrite (step_small _ v2) by lia. rewrite (step_small _ v3) by lia.
+  rewrite (step_small _ v4) by lia. rewrite (step_small _ v5) by lia. lia.
+Qed.
+
+Lemma linear6 S v0 v1 v2 v3 v4 v5 :
+  polymod_from S [v0; v1; v2; v3; v4; v5] =
+  N.lxor (polymod_from S [0; 0; 0; 0; 0; 0]) (polymod_from 0 [v0; v1; v2; v3; v4; v5]).
+Proof.
+  pose proof (polymod_from_linear [(0, v0); (0, v1); (0, v2); (0, v3); (0, v4); (0, v5)] S 0) as L.
+  cbn [map fst snd] in L. rewrite !N.lxor_0_l, N.lxor_0_r in L. exact L.
+Qed.
+
+(* verify_checksum accepts what create_checksum appends: for EVERY hrp and EVERY data *)
+Theorem checksum_valid hrp data :
+  polymod (hrp_expand hrp ++ data ++ create_checksum hrp data) = 1.
+Proof.
+  unfold polymod, create_checksum.
+  set (A := hrp_expand hrp ++ data).
+  replace (hrp_expand hrp ++ data ++ [0; 0; 0; 0; 0; 0]) with (A ++ [0; 0; 0; 0; 0; 0]) by (unfold A; now rewrite app_assoc).
+  rewrite app_assoc. fold A. rewrite !polymod_from_app.
+  set (S := polymod_from 1 A).
+  set (chk := polymod_from S [0; 0; 0; 0; 0; 0]).
+  set (plm := N.lxor chk 1).
+  assert (Hchk : chk < 2 ^ 30).
+  { unfold chk, polymod_from. cbn [fold_left]. apply step_bound. lia. }
+  assert (Hplm : plm < 1073741824).
+  { unfold plm. change 1073741824 with (2 ^ 30). apply lxor_lt_pow2; [exact Hchk|vm_compute; reflexivity]. }
+  rewrite linear6. fold chk.
+  rewrite polymod_from_zero6 by (apply N.mod_lt; lia).
+  replace (((((plm / 33554432 mod 32 * 32 + plm / 1048576 mod 32) * 32 + plm / 32768 mod 32) * 32 +
+             plm / 1024 mod 32) * 32 + plm / 32 mod 32) * 32 + plm mod 32) with plm by lia.
+  unfold plm. rewrite <- N.lxor_assoc, N.lxor_nilpotent, N.lxor_0_l. reflexivity.
+Qed.
+
+(* ================= 2. 8 -> 5 -> 8 bit conversion ================= *)
+(* the decoder with its accumulator normalised to the bits that are still unread *)
+Fixpoint D (data : list N) (y bits : N) (ret : bytes) : result bytes :=
+  match data with
+  | [] => if (5 <=? bits) || negb (y =? 0) then Err else Ok ret
+  | v :: t =>
+      if 32 <=? v then Err
+      else
+        let y' := y * 32 + v in
+        if 8 <=? bits + 5 then D t (y' mod 2 ^ (bits + 5 - 8)) (bits + 5 - 8) (ret ++ [y' / 2 ^ (bits + 5 - 8)])
+        else D t y' (bits + 5) ret
   end.
+
+Ltac pow2 := repeat match goal with
+  | |- context [2 ^ ?e] => let v := eval vm_compute in (2 ^ e) in change (2 ^ e) with v
+  | H : context [2 ^ ?e] |- _ => let v := eval vm_compute in (2 ^ e) in change (2 ^ e) with v in H
+  end.
+
+Lemma small_cases bits : bits < 8 ->
+  bits = 0 \/ bits = 1 \/ bits = 2 \/ bits = 3 \/ bits = 4 \/ bits = 5 \/ bits = 6 \/ bits = 7.
+Proof. lia. Qed.
+
+Lemma dec_D data : forall acc bits ret, bits < 8 ->
+  from_base32_go data acc bits ret = D data (acc mod 2 ^ bits) bits ret.
 Proof.
-  destruct a as [net p s|net p q|net p|net p|b|m]; try reflexivity.
+  induction data as [|v t IH]; intros acc bits ret Hb.
+  - cbn [from_base32_go D]. rewrite N.shiftl_mul_pow2.
+    destruct (small_cases bits Hb) as [->|[->|[->|[->|[->|[->|[->| ->]]]]]]]; pow2;
+      change (8 - 0) with 8; change (8 - 1) with 7; change (8 - 2) with 6; change (8 - 3) with 5;
+      change (8 - 4) with 4; change (8 - 5) with 3; change (8 - 6) with 2; change (8 - 7) with 1; pow2;
+      try reflexivity;
+      match goal with |- (if ?c || negb ?a then _ else _) = (if ?c || negb ?b then _ else _) =>
+        replace a with b; [reflexivity|] end;
+      match goal with |- (?a =? 0) = (?b =? 0) =>
+        destruct (a =? 0) eqn:E1; destruct (b =? 0) eqn:E2; try reflexivity; exfalso; lia end.
+  - cbn [from_base32_go D]. rewrite N.shiftr_div_pow2. change (2 ^ 5) with 32.
+    destruct (32 <=? v) eqn:Ev.
+    + destruct (v / 32 =? 0) eqn:E; [exfalso; lia|reflexivity].
+    + destruct (v / 32 =? 0) eqn:E; [|exfalso; lia]. cbn [negb].
+      rewrite N.shiftl_mul_pow2. change (2 ^ 5) with 32.
+      assert (Hlor : N.lor ((acc * 32) mod 4294967296) v = (acc * 32) mod 4294967296 + v).
+      { apply (lor_disj _ v 5); change (2 ^ 5) with 32; lia. }
+      rewrite Hlor. set (acc' := (acc * 32) mod 4294967296 + v).
+      destruct (small_cases bits Hb) as [->|[->|[->|[->|[->|[->|[->| ->]]]]]]];
+        match goal with |- context [8 <=? ?b + 5] =>
+          let c := eval vm_compute in (8 <=? b + 5) in change (8 <=? b + 5) with c;
+          let s := eval vm_compute in (b + 5) in change (b + 5) with s end;
+        cbv iota;
+        repeat match goal with |- context [?a - 8] =>
+          let d := eval vm_compute in (a - 8) in change (a - 8) with d end;
+        rewrite ?N.shiftr_div_pow2; pow2;
+        rewrite IH by lia; pow2;
+        (f_equal; [unfold acc'; lia| ]) || idtac;
+        try (f_equal; f_equal; unfold acc'; lia);
+        try (f_equal; unfold acc'; lia).
 Qed.
 
-(* ---------------- Base58 of Byron addresses ---------------- *)
-Lemma enc_bytes_ok b : bytes_ok b -> bytes_ok (enc_bytes b).
-Proof. intros H. apply Forall_app; split; [apply encode_head_bytes_ok; lia|exact H]. Qed.
-
-Lemma byron_inner_ok a : wf_byron a -> bytes_ok (byron_inner a).
+Lemma D_emit v t y bits ret k : v < 32 -> bits + 5 = k + 8 ->
+  D (v :: t) y bits ret = D t ((y * 32 + v) mod 2 ^ k) k (ret ++ [(y * 32 + v) / 2 ^ k]).
 Proof.
-  intros (_ & Ha & Hd & _). unfold byron_inner, enc_uint.
-  apply Forall_app; split; [apply encode_head_bytes_ok; lia|].
-  apply Forall_app; split; [apply enc_bytes_ok, Ha|].
-  apply Forall_app; split; [|apply encode_head_bytes_ok; lia].
-  unfold enc_attrs, enc_uint.
-  apply Forall_app; split; [apply encode_head_bytes_ok; lia|].
-  apply Forall_app; split.
-  - destruct (b_dpath a) as [d|]; [|constructor].
-    apply Forall_app; split; [apply encode_head_bytes_ok; lia|apply enc_bytes_ok; tauto].
-  - destruct (b_magic a) as [m|]; [|constructor].
-    apply Forall_app; split; [apply encode_head_bytes_ok; lia|].
-    apply enc_bytes_ok. apply encode_head_bytes_ok. lia.
+  intros Hv Hk. cbn [D]. destruct (32 <=? v) eqn:E; [lia|].
+  destruct (8 <=? bits + 5) eqn:E2; [|lia]. replace (bits + 5 - 8) with k by lia. reflexivity.
+Qed.
+Lemma D_keep v t y bits ret : v < 32 -> bits + 5 < 8 ->
+  D (v :: t) y bits ret = D t (y * 32 + v) (bits + 5) ret.
+Proof.
+  intros Hv Hk. cbn [D]. destruct (32 <=? v) eqn:E; [lia|].
+  destruct (8 <=? bits + 5) eqn:E2; [lia|reflexivity].
+Qed.
+Lemma D_end y bits ret : bits < 5 -> y = 0 -> D [] y bits ret = Ok ret.
+Proof. intros Hb ->. cbn [D]. destruct (5 <=? bits) eqn:E; [lia|reflexivity]. Qed.
+
+(* (buffer & 0b1111_1000) >> 3 is buffer >> 3 for a u8: sweep over the 256 values *)
+Lemma mask_shift_sweep : forallb (fun i => N.land (N.of_nat i) 248 / 8 =? N.of_nat i / 8) (seq 0 256) = true.
+Proof. vm_compute. reflexivity. Qed.
+Lemma mask_shift b : b < 256 -> N.land b 248 / 8 = b / 8.
+Proof.
+  intros H. pose proof mask_shift_sweep as S. rewrite forallb_forall in S.
+  specialize (S (N.to_nat b)). rewrite N2Nat.id in S.
+  assert (I : In (N.to_nat b) (seq 0 256)) by (apply in_seq; lia). specialize (S I). lia.
 Qed.
 
-Lemma byron_encode_ok crc a : wf_byron a -> bytes_ok (byron_encode crc a).
+(* one round of the encoder for each reachable amount of buffered bits (by computation) *)
+Lemma enc_step_0 b t buffer : to_base32_go (b :: t) 0 buffer =
+  N.lor (buffer / 8) (N.shiftr b 3) :: to_base32_go t 3 (N.shiftl b 5 mod 256).
+Proof. reflexivity. Qed.
+Lemma enc_step_3 b t buffer : to_base32_go (b :: t) 3 buffer =
+  N.lor (buffer / 8) (N.shiftr b 6) :: to_base32_go t 6 (N.shiftl b 2 mod 256).
+Proof. reflexivity. Qed.
+Lemma enc_step_4 b t buffer : to_base32_go (b :: t) 4 buffer =
+  N.lor (buffer / 8) (N.shiftr b 7) :: to_base32_go t 7 (N.shiftl b 1 mod 256).
+Proof. reflexivity. Qed.
+Lemma enc_step_5 b t buffer : to_base32_go (b :: t) 5 buffer =
+  N.land buffer 248 / 8 :: N.lor ((buffer * 32) mod 256 / 8) (N.shiftr b 3) :: to_base32_go t 3 (N.shiftl b 5 mod 256).
+Proof. reflexivity. Qed.
+Lemma enc_step_6 b t buffer : to_base32_go (b :: t) 6 buffer =
+  N.land buffer 248 / 8 :: N.lor ((buffer * 32) mod 256 / 8) (N.shiftr b 4) :: to_base32_go t 4 (N.shiftl b 4 mod 256).
+Proof. reflexivity. Qed.
+Lemma enc_step_7 b t buffer : to_base32_go (b :: t) 7 buffer =
+  N.land buffer 248 / 8 :: N.lor ((buffer * 32) mod 256 / 8) (N.shiftr b 5) :: to_base32_go t 5 (N.shiftl b 3 mod 256).
+Proof. reflexivity. Qed.
+Lemma enc_end_0 buffer : to_base32_go [] 0 buffer = []. Proof. reflexivity. Qed.
+Lemma enc_end_3 buffer : to_base32_go [] 3 buffer = [buffer / 8]. Proof. reflexivity. Qed.
+Lemma enc_end_4 buffer : to_base32_go [] 4 buffer = [buffer / 8]. Proof. reflexivity. Qed.
+Lemma enc_end_5 buffer : to_base32_go [] 5 buffer = [N.land buffer 248 / 8]. Proof. reflexivity. Qed.
+Lemma enc_end_6 buffer : to_base32_go [] 6 buffer = [N.land buffer 248 / 8; (buffer * 32) mod 256 / 8]. Proof. reflexivity. Qed.
+Lemma enc_end_7 buffer : to_base32_go [] 7 buffer = [N.land buffer 248 / 8; (buffer * 32) mod 256 / 8]. Proof. reflexivity. Qed.
+
+Definition bits_of (r : N) : N := if r =? 0 then 0 else 8 - r.
+(* the byte that is split between the decoder's unread bits (high part) and the encoder's buffer *)
+Definition pend (r buffer y : N) : bytes := if r =? 0 then [] else [y * 2 ^ r + buffer / 2 ^ (8 - r)].
+Definition st_ok (r buffer y : N) : Prop :=
+  (r = 0 /\ buffer = 0 /\ y = 0) \/
+  ((r = 3 \/ r = 4 \/ r = 5 \/ r = 6 \/ r = 7) /\ buffer < 256 /\ buffer mod 2 ^ (8 - r) = 0 /\ y < 2 ^ (8 - r)).
+
+Ltac lor_plus k :=
+  match goal with |- context [N.lor ?a ?v] =>
+    rewrite (lor_disj a v k) by (pow2; lia) end.
+
+Lemma sim bs : bytes_ok bs -> forall r buffer y ret, st_ok r buffer y ->
+  D (to_base32_go bs r buffer) y (bits_of r) ret = Ok (ret ++ pend r buffer y ++ bs).
 Proof.
-  intros H. unfold byron_encode, enc_uint.
-  apply Forall_app; split; [apply encode_head_bytes_ok; lia|].
-  apply Forall_app; split; [apply encode_head_bytes_ok; lia|].
-  apply Forall_app; split; [|apply encode_head_bytes_ok; lia].
-  apply enc_bytes_ok, byron_inner_ok, H.
+  induction 1 as [|b t Hb _ IH]; intros r buffer y ret Hst.
+  - (* end of input: flush *)
+    destruct Hst as [(-> & -> & ->)|([->|[->|[->|[->| ->]]]] & Hbuf & Hmod & Hy)];
+      unfold bits_of, pend; pow2;
+      repeat match goal with |- context [?a =? 0] =>
+        let c := eval vm_compute in (a =? 0) in change (a =? 0) with c end; cbv iota;
+      repeat match goal with |- context [8 - ?a] =>
+        let c := eval vm_compute in (8 - a) in change (8 - a) with c end; pow2;
+      repeat match goal with H : context [8 - ?a] |- _ =>
+        let c := eval vm_compute in (8 - a) in change (8 - a) with c in H end; pow2.
+    + rewrite enc_end_0, D_end by lia. now rewrite !app_nil_r.
+    + rewrite enc_end_3. rewrite (D_emit _ _ _ 5 _ 2) by lia. pow2. rewrite D_end by lia.
+      rewrite app_nil_r. do 3 f_equal. lia.
+    + rewrite enc_end_4. rewrite (D_emit _ _ _ 4 _ 1) by lia. pow2. rewrite D_end by lia.
+      rewrite app_nil_r. do 3 f_equal. lia.
+    + rewrite enc_end_5, mask_shift by lia. rewrite (D_emit _ _ _ 3 _ 0) by lia. pow2. rewrite D_end by lia.
+      rewrite app_nil_r. do 3 f_equal. lia.
+    + rewrite enc_end_6, mask_shift by lia. rewrite (D_keep _ _ _ 2) by lia. change (2 + 5) with 7.
+      rewrite (D_emit _ _ _ 7 _ 4) by lia. pow2. rewrite D_end by lia.
+      rewrite app_nil_r. do 3 f_equal. lia.
+    + rewrite enc_end_7, mask_shift by lia. rewrite (D_keep _ _ _ 1) by lia. change (1 + 5) with 6.
+      rewrite (D_emit _ _ _ 6 _ 3) by lia. pow2. rewrite D_end by lia.
+      rewrite app_nil_r. do 3 f_equal. lia.
+  - (* one more byte *)
+    destruct Hst as [(-> & -> & ->)|([->|[->|[->|[->| ->]]]] & Hbuf & Hmod & Hy)];
+      unfold bits_of, pend; pow2;
+      repeat match goal with |- context [?a =? 0] =>
+        let c := eval vm_compute in (a =? 0) in change (a =? 0) with c end; cbv iota;
+      repeat match goal with |- context [8 - ?a] =>
+        let c := eval vm_compute in (8 - a) in change (8 - a) with c end; pow2;
+      repeat match goal with H : context [8 - ?a] |- _ =>
+        let c := eval vm_compute in (8 - a) in change (8 - a) with c in H end; pow2.
+    + (* r = 0 *)
+      rewrite enc_step_0, N.shiftr_div_pow2, N.shiftl_mul_pow2. pow2.
+      change (0 / 8) with 0. rewrite N.lor_0_l.
+      rewrite (D_keep _ _ _ 0) by lia. change (0 + 5) with 5.
+      assert (S3 : st_ok 3 ((b * 32) mod 256) (0 * 32 + b / 8)).
+      { right. split; [auto|]. pow2. change (8 - 3) with 5. pow2. lia. }
+      pose proof (IH 3 _ _ ret S3) as I. unfold bits_of, pend in I.
+      change (3 =? 0) with false in I. cbv iota in I. change (8 - 3) with 5 in I. pow2. rewrite I.
+      cbn [app]. do 3 f_equal. lia.
+    + (* r = 3 *)
+      rewrite enc_step_3, N.shiftr_div_pow2, N.shiftl_mul_pow2. pow2. lor_plus 2.
+      rewrite (D_emit _ _ _ 5 _ 2) by lia. pow2.
+      assert (S6 : st_ok 6 ((b * 4) mod 256) ((y * 32 + (buffer / 8 + b / 64)) mod 4)).
+      { right. split; [auto|]. change (8 - 6) with 2. pow2. lia. }
+      pose proof (IH 6 _ _ (ret ++ [(y * 32 + (buffer / 8 + b / 64)) / 4]) S6) as I. unfold bits_of, pend in I.
+      change (6 =? 0) with false in I. cbv iota in I. change (8 - 6) with 2 in I. pow2. rewrite I.
+      rewrite <- app_assoc. cbn [app]. do 2 f_equal. f_equal; [lia|]. f_equal. lia.
+    + (* r = 4 *)
+      rewrite enc_step_4, N.shiftr_div_pow2, N.shiftl_mul_pow2. pow2. lor_plus 1.
+      rewrite (D_emit _ _ _ 4 _ 1) by lia. pow2.
+      assert (S7 : st_ok 7 ((b * 2) mod 256) ((y * 32 + (buffer / 8 + b / 128)) mod 2)).
+      { right. split; [auto 6|]. change (8 - 7) with 1. pow2. lia. }
+      pose proof (IH 7 _ _ (ret ++ [(y * 32 + (buffer / 8 + b / 128)) / 2]) S7) as I. unfold bits_of, pend in I.
+      change (7 =? 0) with false in I. cbv iota in I. change (8 - 7) with 1 in I. pow2. rewrite I.
+      rewrite <- app_assoc. cbn [app]. do 2 f_equal. f_equal; [lia|]. f_equal. lia.
+    + (* r = 5 *)
+      rewrite enc_step_5, mask_shift, N.shiftr_div_pow2, N.shiftl_mul_pow2 by lia. pow2.
+      replace ((buffer * 32) mod 256 / 8) with 0 by lia. rewrite N.lor_0_l.
+      rewrite (D_emit _ _ _ 3 _ 0) by lia. pow2.
+      rewrite (D_keep _ _ _ 0) by lia. change (0 + 5) with 5.
+      assert (S3 : st_ok 3 ((b * 32) mod 256) ((y * 32 + buffer / 8) mod 1 * 32 + b / 8)).
+      { right. split; [auto|]. change (8 - 3) with 5. pow2. lia. }
+      pose proof (IH 3 _ _ (ret ++ [(y * 32 + buffer / 8) / 1]) S3) as I. unfold bits_of, pend in I.
+      change (3 =? 0) with false in I. cbv iota in I. change (8 - 3) with 5 in I. pow2. rewrite I.
+      rewrite <- app_assoc. cbn [app]. do 2 f_equal. f_equal; [lia|]. f_equal. lia.
+    + (* r = 6 *)
+      rewrite enc_step_6, mask_shift, N.shiftr_div_pow2, N.shiftl_mul_pow2 by lia. pow2. lor_plus 4.
+      rewrite (D_keep _ _ _ 2) by lia. change (2 + 5) with 7.
+      rewrite (D_emit _ _ _ 7 _ 4) by lia. pow2.
+      set (y2 := (y * 32 + buffer / 8) * 32 + ((buffer * 32) mod 256 / 8 + b / 16)).
+      assert (S4 : st_ok 4 ((b * 16) mod 256) (y2 mod 16)).
+      { right. split; [auto|]. change (8 - 4) with 4. pow2. lia. }
+      pose proof (IH 4 _ _ (ret ++ [y2 / 16]) S4) as I. unfold bits_of, pend in I.
+      change (4 =? 0) with false in I. cbv iota in I. change (8 - 4) with 4 in I. pow2. rewrite I.
+      rewrite <- app_assoc. cbn [app]. do 2 f_equal. unfold y2. f_equal; [lia|]. f_equal. lia.
+    + (* r = 7 *)
+      rewrite enc_step_7, mask_shift, N.shiftr_div_pow2, N.shiftl_mul_pow2 by lia. pow2. lor_plus 3.
+      rewrite (D_keep _ _ _ 1) by lia. change (1 + 5) with 6.
+      rewrite (D_emit _ _ _ 6 _ 3) by lia. pow2.
+      set (y2 := (y * 32 + buffer / 8) * 32 + ((buffer * 32) mod 256 / 8 + b / 32)).
+      assert (S5 : st_ok 5 ((b * 8) mod 256) (y2 mod 8)).
+      { right. split; [auto|]. change (8 - 5) with 3. pow2. lia. }
+      pose proof (IH 5 _ _ (ret ++ [y2 / 8]) S5) as I. unfold bits_of, pend in I.
+      change (5 =? 0) with false in I. cbv iota in I. change (8 - 5) with 3 in I. pow2. rewrite I.
+      rewrite <- app_assoc. cbn [app]. do 2 f_equal. unfold y2. f_equal; [lia|]. f_equal. lia.
 Qed.
 
-Theorem byron_base58_roundtrip b : wf_byron b -> byron_from_base58 (byron_to_base58 b) = Ok b.
+(* FromBase32(ToBase32(bytes)) = bytes, for every byte string *)
+Theorem base32_roundtrip bs : bytes_ok bs -> from_base32 (to_base32 bs) = Ok bs.
 Proof.
-  intros Hwf. unfold byron_from_base58, byron_to_base58.
-  rewrite base58_roundtrip.
-  - apply (byron_roundtrip crc32 crc32_range b Hwf).
-  - apply byron_encode_ok, Hwf.
-  - destruct (byron_encode_head crc32 b) as [tl ->]. discriminate.
+  intros H. unfold from_base32, to_base32. rewrite dec_D by lia. change (0 mod 2 ^ 0) with 0.
+  pose proof (sim bs H 0 0 0 [] ltac:(left; auto)) as S. unfold bits_of, pend in S.
+  change (0 =? 0) with true in S. cbv iota in S. exact S.
 Qed.
 
-(* the written bytes of every well-formed address are bytes *)
-Lemma to_bytes_ok a : wf_address a -> bytes_ok (to_bytes a).
+Lemma D_ok_lt32 data : forall y bits ret r, D data y bits ret = Ok r -> Forall (fun d => d < 32) data.
 Proof.
-  intros Hwf. destruct a as [net p s|net p q|net p|net p|b|m]; cbn [to_bytes].
-  - destruct Hwf as (Hn & [_ Hp] & [_ Hs]). constructor; [destruct p, s; cbn; lia|].
-    apply Forall_app; split; assumption.
-  - destruct Hwf as (Hn & [_ Hp] & _). constructor; [destruct p; cbn; lia|].
-    repeat (apply Forall_app; split); try assumption; apply varnat_encode_bytes_ok.
-  - destruct Hwf as (Hn & [_ Hp]). constructor; [destruct p; cbn; lia|exact Hp].
-  - destruct Hwf as (Hn & [_ Hp]). constructor; [destruct p; cbn; lia|exact Hp].
-  - apply byron_encode_ok, Hwf.
-  - destruct Hwf.
+  induction data as [|v t IH]; intros y bits ret r H; [constructor|]. cbn [D] in H.
+  destruct (32 <=? v) eqn:E; [discriminate|]. constructor; [lia|].
+  destruct (8 <=? bits + 5); eapply IH; exact H.
 Qed.
 
-(* what a well-formed address writes is classified as itself by its own header *)
-Theorem classify_written a : wf_address a -> agrees_with_header a (to_bytes a) = true.
+(* ToBase32 produces u5 values *)
+Theorem to_base32_lt32 bs : bytes_ok bs -> Forall (fun d => d < 32) (to_base32 bs).
 Proof.
-  intros Hwf. apply (classify_parsed false); [apply to_bytes_ok, Hwf|apply address_roundtrip, Hwf].
+  intros H. pose proof (sim bs H 0 0 0 [] ltac:(left; auto)) as S. unfold bits_of in S.
+  change (0 =? 0) with true in S. cbv iota in S. eapply D_ok_lt32. exact S.
+Qed.
+
+(* ================= 3. decode (encode hrp data) ================= *)
+Definition char_ok (d : N) : bool :=
+  let c := to_char d in
+  (c <? 128) && negb (is_upper c) && negb (c =? 49)
+  && (nth (N.to_nat c) charset_rev (-1)%Z =? Z.of_N d)%Z.
+Lemma charset_sweep : forallb (fun i => char_ok (N.of_nat i)) (seq 0 32) = true.
+Proof. vm_compute. reflexivity. Qed.
+Lemma char_ok_all d : d < 32 -> char_ok d = true.
+Proof.
+  intros H. pose proof charset_sweep as S. rewrite forallb_forall in S.
+  specialize (S (N.to_nat d)). rewrite N2Nat.id in S. apply S. apply in_seq. lia.
+Qed.
+
+Lemma decode_char_to_char case d : d < 32 -> case <> CUpper ->
+  exists case', decode_char case (to_char d) = Ok (case', d) /\ case' <> CUpper.
+Proof.
+  intros Hd Hc. pose proof (char_ok_all d Hd) as K. unfold char_ok in K. cbv zeta in K.
+  rewrite !andb_true_iff, !negb_true_iff in K. destruct K as (((K1 & K2) & K3) & K4).
+  unfold decode_char. destruct (128 <=? to_char d) eqn:E; [lia|]. rewrite K2.
+  assert (Hn : nth (N.to_nat (to_char d)) charset_rev (-1)%Z = Z.of_N d) by lia. rewrite Hn.
+  assert (Hr : ((31 <? Z.of_N d)%Z || (Z.of_N d <? 0)%Z) = false) by lia. rewrite Hr, N2Z.id.
+  destruct (is_lower (to_char d)).
+  - destruct case; [congruence| |]; (eexists; split; [reflexivity|discriminate]).
+  - eexists; split; [reflexivity|exact Hc].
+Qed.
+
+Lemma decode_chars_to_char ds : Forall (fun d => d < 32) ds -> forall case, case <> CUpper ->
+  decode_chars case (map to_char ds) = Ok ds.
+Proof.
+  induction 1 as [|d t Hd _ IH]; intros case Hc; [reflexivity|]. cbn [map decode_chars].
+  destruct (decode_char_to_char case d Hd Hc) as (case' & E & Hc'). rewrite E. cbn [bind].
+  rewrite (IH case' Hc'). reflexivity.
+Qed.
+
+Lemma to_char_not_sep ds : Forall (fun d => d < 32) ds -> Forall (fun c => c <> 49) (map to_char ds).
+Proof.
+  induction 1 as [|d t Hd _ IH]; [constructor|]. cbn [map]. constructor; [|exact IH].
+  pose proof (char_ok_all d Hd) as K. unfold char_ok in K. cbv zeta in K.
+  rewrite !andb_true_iff, !negb_true_iff in K. lia.
+Qed.
+
+(* --- the separator is the LAST '1' --- *)
+Lemma rfind_go_notin c b : Forall (fun x => x <> c) b -> forall i last, rfind_go c b i last = last.
+Proof.
+  induction 1 as [|x t Hx _ IH]; intros i last; [reflexivity|]. cbn [rfind_go].
+  destruct (x =? c) eqn:E; [lia|]. apply IH.
+Qed.
+Lemma rfind_go_last c a b : Forall (fun x => x <> c) b -> forall i last,
+  rfind_go c (a ++ c :: b) i last = Some (i + length a)%nat.
+Proof.
+  intros Hb. induction a as [|x t IH]; intros i last.
+  - cbn [app rfind_go length]. rewrite N.eqb_refl, rfind_go_notin by exact Hb. f_equal. lia.
+  - cbn [app rfind_go length]. rewrite IH. f_equal. lia.
+Qed.
+Lemma rfind_last c a b : Forall (fun x => x <> c) b -> rfind c (a ++ c :: b) = Some (length a).
+Proof. intros H. unfold rfind. now rewrite rfind_go_last. Qed.
+
+(* --- check_hrp and lower-casing --- *)
+Lemma check_go_has_lower hrp : forall hu c, check_hrp_go hrp true hu = Ok c -> c <> CUpper.
+Proof.
+  induction hrp as [|b t IH]; intros hu c H; cbn [check_hrp_go] in H.
+  - destruct hu; injection H as <-; discriminate.
+  - destruct ((b <? 33) || (126 <? b)); [discriminate|].
+    destruct (is_lower b).
+    + cbn [andb] in H. destruct hu; [discriminate|]. eapply IH; exact H.
+    + destruct (is_upper b); cbn [andb] in H; [discriminate|].
+      destruct hu; [discriminate|]. eapply IH; exact H.
+Qed.
+
+Lemma is_lower_lowercase b : is_upper b = true -> is_lower (lowercase b) = true /\ is_upper (lowercase b) = false
+  /\ ((lowercase b <? 33) || (126 <? lowercase b)) = false.
+Proof. intros H. unfold lowercase. rewrite H. unfold is_upper, is_lower in *. lia. Qed.
+
+Lemma lowercase_id b : is_upper b = false -> lowercase b = b.
+Proof. unfold lowercase. now intros ->. Qed.
+
+Lemma check_go_upper hrp : forall hu, check_hrp_go hrp false hu = Ok CUpper ->
+  check_hrp_go (map lowercase hrp) hu false = Ok CLower.
+Proof.
+  induction hrp as [|b t IH]; intros hu H; cbn [check_hrp_go map] in *.
+  - destruct hu; [reflexivity|discriminate].
+  - destruct ((b <? 33) || (126 <? b)) eqn:R; [discriminate|].
+    destruct (is_lower b) eqn:L.
+    + cbn [andb] in H. destruct hu; [discriminate|]. exfalso. eapply check_go_has_lower; [exact H|reflexivity].
+    + destruct (is_upper b) eqn:U.
+      * cbn [andb] in H. destruct (is_lower_lowercase b U) as (L' & U' & R'). rewrite R', L'.
+        cbn [andb]. apply IH in H. destruct hu; exact H.
+      * cbn [andb] in H. rewrite (lowercase_id b U), R, L, U.
+        destruct hu; cbn [andb]; apply IH; exact H.
+Qed.
+
+Lemma check_hrp_lowered hrp c : check_hrp hrp = Ok c ->
+  exists c', check_hrp (hrp_lower c hrp) = Ok c' /\ c' <> CUpper.
+Proof.
+  unfold check_hrp. intros H. destruct c; cbn [hrp_lower].
+  - rewrite map_length. destruct ((length hrp =? 0)%nat || (83 <? length hrp)%nat); [discriminate|].
+    exists CLower. split; [apply check_go_upper; exact H|discriminate].
+  - exists CLower. split; [exact H|discriminate].
+  - exists CNone. split; [exact H|discriminate].
+Qed.
+
+Lemma check_hrp_nonempty hrp c : check_hrp hrp = Ok c -> (1 <= length hrp <= 83)%nat.
+Proof.
+  unfold check_hrp. destruct (length hrp =? 0)%nat eqn:E1; [discriminate|].
+  destruct (83 <? length hrp)%nat eqn:E2; [discriminate|]. intros _.
+  apply Nat.eqb_neq in E1. apply Nat.ltb_ge in E2. lia.
+Qed.
+
+Lemma firstn_len {A} (l r : list A) : firstn (length l) (l ++ r) = l.
+Proof. induction l as [|x t IH]; [reflexivity|]. cbn. now rewrite IH. Qed.
+Lemma skipn_len {A} (l r : list A) : skipn (length l) (l ++ r) = r.
+Proof. induction l as [|x t IH]; [reflexivity|]. cbn. exact IH. Qed.
+
+Lemma skipn_add_hl (hl r : list N) : skipn (length hl + 1) (hl ++ 49 :: r) = r.
+Proof. induction hl as [|x t IH]; [reflexivity|]. cbn [length app]. exact IH. Qed.
+
+Lemma create_checksum_props hrp data :
+  length (create_checksum hrp data) = 6%nat /\ Forall (fun d => d < 32) (create_checksum hrp data).
+Proof. unfold create_checksum. split; [reflexivity|]. repeat constructor; apply N.mod_lt; lia. Qed.
+
+Lemma encode_shape hrp data c : check_hrp hrp = Ok c ->
+  encode hrp data = Ok (hrp_lower c hrp ++ 49 :: map to_char (data ++ create_checksum (hrp_lower c hrp) data)).
+Proof. intros H. unfold encode. rewrite H, map_app. reflexivity. Qed.
+
+(* decode (encode hrp data) = (lower-cased hrp, data): every accepted HRP, every u5 list, no length limit *)
+Theorem decode_encode hrp data s : Forall (fun d => d < 32) data -> encode hrp data = Ok s ->
+  exists c, check_hrp hrp = Ok c /\ decode s = Ok (hrp_lower c hrp, data).
+Proof.
+  intros Hd He. destruct (check_hrp hrp) as [c| | |] eqn:Ec;
+    try (unfold encode in He; rewrite Ec in He; discriminate).
+  rewrite (encode_shape hrp data c Ec) in He.
+  exists c. split; [reflexivity|].
+  remember (hrp_lower c hrp) as hl eqn:Ehl. remember (create_checksum hl data) as cs eqn:Ecs.
+  injection He as <-.
+  destruct (create_checksum_props hl data) as [Lcs Hcs]. rewrite <- Ecs in Lcs, Hcs.
+  destruct (check_hrp_lowered hrp c Ec) as (c' & Ec' & Hc'). rewrite <- Ehl in Ec'.
+  assert (Lhl : (1 <= length hl)%nat) by (apply (check_hrp_nonempty hl c' Ec')).
+  unfold decode.
+  assert (Hall : Forall (fun d => d < 32) (data ++ cs)) by (apply Forall_app; split; assumption).
+  match goal with |- context [(?n <? 8)%nat] => destruct (n <? 8)%nat eqn:E8 end.
+  { apply Nat.ltb_lt in E8. rewrite app_length in E8. cbn [length] in E8.
+    rewrite map_length, app_length, Lcs in E8. lia. }
+  rewrite rfind_last by (apply to_char_not_sep; exact Hall).
+  rewrite firstn_len.
+  change (S (length hl)) with (1 + length hl)%nat. rewrite Nat.add_comm, skipn_add_hl.
+  destruct (length (map to_char (data ++ cs)) <? 6)%nat eqn:E6.
+  { apply Nat.ltb_lt in E6. rewrite map_length, app_length, Lcs in E6. lia. }
+  rewrite Ec'. cbn [bind].
+  assert (Hhl : hrp_lower c' hl = hl) by (destruct c'; [congruence|reflexivity|reflexivity]).
+  rewrite Hhl, (decode_chars_to_char _ Hall c' Hc'). cbn [bind].
+  unfold verify_checksum. rewrite Ecs at 1. rewrite checksum_valid. change (1 =? 1) with true. cbv iota.
+  rewrite app_length, Lcs. replace (length data + 6 - 6)%nat with (length data) by lia.
+  now rewrite firstn_len.
+Qed.
+
+(* the two calls the library makes, composed: for every byte string *)
+Theorem b32_roundtrip hrp bs s : bytes_ok bs -> b32_encode hrp bs = Some s ->
+  exists c, check_hrp hrp = Ok c /\ b32_decode s = Some (hrp_lower c hrp, bs).
+Proof.
+  intros Hok H. unfold b32_encode in H.
+  destruct (encode hrp (to_base32 bs)) as [s'| | |] eqn:E; try discriminate. injection H as <-.
+  destruct (decode_encode hrp (to_base32 bs) s' (to_base32_lt32 bs Hok) E) as (c & Hc & Hd).
+  exists c. split; [exact Hc|]. unfold b32_decode. rewrite Hd, (base32_roundtrip bs Hok). reflexivity.
+Qed.
+
+(* encode fails only on the HRP: any valid HRP, any data, any length *)
+Theorem b32_encode_total hrp bs c : check_hrp hrp = Ok c -> exists s, b32_encode hrp bs = Some s.
+Proof. intros H. unfold b32_encode. rewrite (encode_shape hrp _ c H). eauto. Qed.
+
+(* ================= 4. rejections ================= *)
+Theorem decode_rejects_short s : (length s < 8)%nat -> decode s = Err.
+Proof. intros H. unfold decode. apply Nat.ltb_lt in H. now rewrite H. Qed.
+
+Theorem decode_rejects_no_separator s : Forall (fun x => x <> 49) s -> decode s = Err.
+Proof.
+  intros H. unfold decode. destruct (length s <? 8)%nat; [reflexivity|].
+  unfold rfind. now rewrite rfind_go_notin.
+Qed.
+
+Lemma check_hrp_go_cases hrp : forall hl hu, (exists c, check_hrp_go hrp hl hu = Ok c) \/ check_hrp_go hrp hl hu = Err.
+Proof.
+  induction hrp as [|b t IH]; intros hl hu; cbn [check_hrp_go]; [left; eexists; reflexivity|].
+  destruct ((b <? 33) || (126 <? b)); [now right|].
+  match goal with |- context [if ?c then Err else _] => destruct c end; [now right|apply IH].
+Qed.
+Lemma check_hrp_cases hrp : (exists c, check_hrp hrp = Ok c) \/ check_hrp hrp = Err.
+Proof. unfold check_hrp. destruct (_ || _); [now right|apply check_hrp_go_cases]. Qed.
+
+Lemma decode_char_cases case c : (exists p, decode_char case c = Ok p) \/ decode_char case c = Err.
+Proof.
+  unfold decode_char. destruct (128 <=? c); [now right|].
+  destruct (is_lower c); [destruct case|destruct (is_upper c); [destruct case|]];
+    try (now right);
+    destruct ((31 <? nth (N.to_nat c) charset_rev (-1))%Z || (nth (N.to_nat c) charset_rev (-1) <? 0)%Z);
+    (now right) || (left; eexists; reflexivity).
+Qed.
+
+Lemma decode_chars_bad c cs : In c cs -> (forall case, decode_char case c = Err) ->
+  forall case, decode_chars case cs = Err.
+Proof.
+  intros Hin Hbad. induction cs as [|x t IH]; [destruct Hin|]. intros case. cbn [decode_chars].
+  destruct Hin as [->|Hin]; [now rewrite Hbad|].
+  destruct (decode_char_cases case x) as [[[case' v] E]|E]; rewrite E; cbn [bind]; [|reflexivity].
+  now rewrite (IH Hin case').
+Qed.
+
+(* a data character outside the charset (or outside ASCII) makes decode fail *)
+Theorem decode_rejects_bad_char s sep c : rfind 49 s = Some sep -> In c (skipn (S sep) s) ->
+  (forall case, decode_char case c = Err) -> decode s = Err.
+Proof.
+  intros Hr Hin Hbad. unfold decode. destruct (length s <? 8)%nat; [reflexivity|]. rewrite Hr.
+  destruct (length (skipn (S sep) s) <? 6)%nat; [reflexivity|].
+  destruct (check_hrp_cases (firstn sep s)) as [[case E]|E]; rewrite E; cbn [bind]; [|reflexivity].
+  now rewrite (decode_chars_bad c _ Hin Hbad case).
+Qed.
+
+Example bad_chars : forall case, decode_char case 98 = Err /\ decode_char case 49 = Err /\ decode_char case 200 = Err.
+Proof. intros case. destruct case; repeat split; vm_compute; reflexivity. Qed.   (* 'b', '1', a non-ASCII byte *)
+
+Lemma lower_upper_excl c : is_lower c = true -> is_upper c = true -> False.
+Proof. unfold is_lower, is_upper. lia. Qed.
+
+Lemma decode_chars_lower_then_upper cs up : In up cs -> is_upper up = true -> decode_chars CLower cs = Err.
+Proof.
+  intros Hin Hup. induction cs as [|x t IH]; [destruct Hin|]. cbn [decode_chars].
+  destruct Hin as [->|Hin].
+  - unfold decode_char. destruct (128 <=? up); [reflexivity|].
+    destruct (is_lower up) eqn:L; [exfalso; eapply lower_upper_excl; eassumption|]. now rewrite Hup.
+  - unfold decode_char. destruct (128 <=? x); [reflexivity|].
+    destruct (is_lower x).
+    + destruct ((31 <? nth (N.to_nat x) charset_rev (-1))%Z || (nth (N.to_nat x) charset_rev (-1) <? 0)%Z); cbn [bind]; [reflexivity|].
+      now rewrite (IH Hin).
+    + destruct (is_upper x); [reflexivity|].
+      destruct ((31 <? nth (N.to_nat x) charset_rev (-1))%Z || (nth (N.to_nat x) charset_rev (-1) <? 0)%Z); cbn [bind]; [reflexivity|].
+      now rewrite (IH Hin).
+Qed.
+
+Lemma decode_chars_upper_then_lower cs lo : In lo cs -> is_lower lo = true -> decode_chars CUpper cs = Err.
+Proof.
+  intros Hin Hlo. induction cs as [|x t IH]; [destruct Hin|]. cbn [decode_chars].
+  destruct Hin as [->|Hin].
+  - unfold decode_char. destruct (128 <=? lo); [reflexivity|]. now rewrite Hlo.
+  - unfold decode_char. destruct (128 <=? x); [reflexivity|].
+    destruct (is_lower x); [reflexivity|].
+    destruct (is_upper x);
+      (destruct ((31 <? nth (N.to_nat x) charset_rev (-1))%Z || (nth (N.to_nat x) charset_rev (-1) <? 0)%Z); cbn [bind]; [reflexivity|];
+       now rewrite (IH Hin)).
+Qed.
+
+(* mixed case in the data part is refused whatever the case of the HRP *)
+Theorem decode_chars_mixed_case cs lo up : In lo cs -> In up cs -> is_lower lo = true -> is_upper up = true ->
+  forall case, decode_chars case cs = Err.
+Proof.
+  intros Hlo Hup Ll Uu. induction cs as [|x t IH]; [destruct Hlo|]. intros case.
+  destruct case.
+  - apply (decode_chars_upper_then_lower _ lo); assumption.
+  - apply (decode_chars_lower_then_upper _ up); assumption.
+  - cbn [decode_chars]. unfold decode_char. destruct (128 <=? x); [reflexivity|].
+    destruct (is_lower x) eqn:Lx.
+    + destruct ((31 <? nth (N.to_nat x) charset_rev (-1))%Z || (nth (N.to_nat x) charset_rev (-1) <? 0)%Z); cbn [bind]; [reflexivity|].
+      destruct Hup as [->|Hup]; [exfalso; eapply lower_upper_excl; eassumption|].
+      now rewrite (decode_chars_lower_then_upper t up Hup Uu).
+    + destruct (is_upper x) eqn:Ux.
+      * destruct ((31 <? nth (N.to_nat x) charset_rev (-1))%Z || (nth (N.to_nat x) charset_rev (-1) <? 0)%Z); cbn [bind]; [reflexivity|].
+        destruct Hlo as [->|Hlo]; [congruence|].
+        now rewrite (decode_chars_upper_then_lower t lo Hlo Ll).
+      * destruct ((31 <? nth (N.to_nat x) charset_rev (-1))%Z || (nth (N.to_nat x) charset_rev (-1) <? 0)%Z); cbn [bind]; [reflexivity|].
+        destruct Hlo as [->|Hlo]; [congruence|]. destruct Hup as [->|Hup]; [congruence|].
+        now rewrite (IH Hlo Hup CNone).
+Qed.
+
+Theorem decode_rejects_mixed_case s sep lo up : rfind 49 s = Some sep ->
+  In lo (skipn (S sep) s) -> In up (skipn (S sep) s) -> is_lower lo = true -> is_upper up = true ->
+  decode s = Err.
+Proof.
+  intros Hr Hlo Hup Ll Uu. unfold decode. destruct (length s <? 8)%nat; [reflexivity|]. rewrite Hr.
+  destruct (length (skipn (S sep) s) <? 6)%nat; [reflexivity|].
+  destruct (check_hrp_cases (firstn sep s)) as [[case E]|E]; rewrite E; cbn [bind]; [|reflexivity].
+  now rewrite (decode_chars_mixed_case _ lo up Hlo Hup Ll Uu case).
+Qed.
+
+(* an upper-case HRP with a lower-case data character (or the converse) is refused *)
+Theorem decode_rejects_hrp_data_case s sep x : rfind 49 s = Some sep -> In x (skipn (S sep) s) ->
+  (check_hrp (firstn sep s) = Ok CUpper /\ is_lower x = true) \/
+  (check_hrp (firstn sep s) = Ok CLower /\ is_upper x = true) -> decode s = Err.
+Proof.
+  intros Hr Hin H. unfold decode. destruct (length s <? 8)%nat; [reflexivity|]. rewrite Hr.
+  destruct (length (skipn (S sep) s) <? 6)%nat; [reflexivity|].
+  destruct H as [[-> Hx]|[-> Hx]]; cbn [bind].
+  - now rewrite (decode_chars_upper_then_lower _ x Hin Hx).
+  - now rewrite (decode_chars_lower_then_upper _ x Hin Hx).
+Qed.
+
+(* ================= 5. error detection: one wrong symbol is always detected ================= *)
+Definition mixf (b : N) : N :=
+  N.lxor (N.lxor (N.lxor (N.lxor (sel b 0 gen0) (sel b 1 gen1)) (sel b 2 gen2)) (sel b 3 gen3)) (sel b 4 gen4).
+
+Lemma step_split c v :
+  polymod_step c v = N.lxor (N.lxor (N.shiftl (N.land c 33554431) 5) v) (mixf (N.shiftr c 25)).
+Proof. unfold polymod_step, mixf. apply N.bits_inj. intros n. rewrite !N.lxor_spec. btauto. Qed.
+
+Lemma mixf_low_sweep :
+  forallb (fun i => (N.of_nat i =? 0) || negb (mixf (N.of_nat i) mod 32 =? 0)) (seq 0 32) = true.
+Proof. vm_compute. reflexivity. Qed.
+Lemma mixf_low b : b < 32 -> mixf b mod 32 = 0 -> b = 0.
+Proof.
+  intros Hb H. pose proof mixf_low_sweep as S. rewrite forallb_forall in S.
+  specialize (S (N.to_nat b)). rewrite N2Nat.id in S.
+  assert (I : In (N.to_nat b) (seq 0 32)) by (apply in_seq; lia). specialize (S I). lia.
+Qed.
+
+(* multiplying a non-zero state by x never gives zero: the step with symbol 0 is injective *)
+Lemma step0_nonzero d : d < 2 ^ 30 -> polymod_step d 0 = 0 -> d = 0.
+Proof.
+  intros Hd H. rewrite step_split, N.lxor_0_r in H. apply N.lxor_eq in H.
+  rewrite N.shiftl_mul_pow2, N.shiftr_div_pow2 in H. change 33554431 with (N.ones 25) in H.
+  rewrite N.land_ones in H. change (2 ^ 5) with 32 in H. change (2 ^ 25) with 33554432 in *.
+  change (2 ^ 30) with 1073741824 in Hd.
+  assert (Hb : d / 33554432 < 32) by (apply N.div_lt_upper_bound; lia).
+  assert (Hz : d / 33554432 = 0).
+  { apply mixf_low; [exact Hb|]. rewrite <- H. apply N.mod_mul. lia. }
+  rewrite Hz in H. change (mixf 0) with 0 in H. lia.
+Qed.
+
+Lemma polymod_zeros_nonzero k : forall d, d < 2 ^ 30 -> d <> 0 -> polymod_from d (repeat 0 k) <> 0.
+Proof.
+  induction k as [|k IH]; intros d Hd Hz; [exact Hz|]. unfold polymod_from in *. cbn [repeat fold_left].
+  apply IH; [apply step_bound; lia|]. intros E. apply Hz. now apply step0_nonzero.
+Qed.
+
+Lemma combine_same_fst (z : list N) : map fst (combine z z) = z.
+Proof. induction z as [|x t IH]; [reflexivity|]. cbn. now rewrite IH. Qed.
+Lemma combine_same_snd (z : list N) : map snd (combine z z) = z.
+Proof. induction z as [|x t IH]; [reflexivity|]. cbn. now rewrite IH. Qed.
+Lemma combine_same_xor (z : list N) : map (fun p => N.lxor (fst p) (snd p)) (combine z z) = repeat 0 (length z).
+Proof. induction z as [|x t IH]; [reflexivity|]. cbn. now rewrite IH, N.lxor_nilpotent. Qed.
+
+Theorem single_substitution_detected c a e e' z : e < 32 -> e' < 32 -> e <> e' ->
+  polymod_from c (a ++ e :: z) <> polymod_from c (a ++ e' :: z).
+Proof.
+  intros He He' Hne Heq. rewrite !polymod_from_app in Heq.
+  set (S := polymod_from c a) in *.
+  change (polymod_from S (e :: z)) with (polymod_from (polymod_step S e) z) in Heq.
+  change (polymod_from S (e' :: z)) with (polymod_from (polymod_step S e') z) in Heq.
+  pose proof (polymod_from_linear (combine z z) (polymod_step S e) (polymod_step S e')) as L.
+  rewrite combine_same_fst, combine_same_snd, combine_same_xor, Heq, N.lxor_nilpotent in L.
+  rewrite <- step_linear, N.lxor_nilpotent in L.
+  assert (Hx : N.lxor e e' < 32) by (change 32 with (2 ^ 5); apply lxor_lt_pow2; assumption).
+  rewrite step_small in L by lia. change (0 * 32 + N.lxor e e') with (N.lxor e e') in L.
+  revert L. apply polymod_zeros_nonzero.
+  - eapply N.lt_trans; [exact Hx|vm_compute; reflexivity].
+  - intros E. apply Hne. now apply N.lxor_eq.
+Qed.
+
+(* a valid string with ONE data or checksum symbol replaced by another one never verifies *)
+Theorem verify_rejects_symbol_substitution hrp a e e' z : e < 32 -> e' < 32 -> e <> e' ->
+  verify_checksum hrp (a ++ e :: z) = true -> verify_checksum hrp (a ++ e' :: z) = false.
+Proof.
+  unfold verify_checksum, polymod. intros He He' Hne H.
+  destruct (polymod_from 1 (hrp_expand hrp ++ a ++ e' :: z) =? 1) eqn:E; [|reflexivity]. exfalso.
+  rewrite !app_assoc in H, E.
+  apply (single_substitution_detected 1 (hrp_expand hrp ++ a) e e' z He He' Hne). lia.
+Qed.
+
+(* a wrong human-readable part: one character replaced by another with the same top three bits
+   (e.g. any lower-case letter by another lower-case letter) never verifies *)
+Theorem verify_rejects_hrp_substitution h1 x x' h2 data : x / 32 = x' / 32 -> x mod 32 <> x' mod 32 ->
+  verify_checksum (h1 ++ x :: h2) data = true -> verify_checksum (h1 ++ x' :: h2) data = false.
+Proof.
+  unfold verify_checksum, polymod, hrp_expand. intros Hhi Hlo H.
+  match goal with |- (?t =? 1) = false => destruct (t =? 1) eqn:E end; [|reflexivity]. exfalso.
+  rewrite !map_app in H, E. cbn [map] in H, E. rewrite Hhi in H.
+  rewrite <- !app_assoc in H, E. cbn [app] in H, E.
+  set (pre := map (fun b => b / 32) h1 ++ x' / 32 :: map (fun b => b / 32) h2 ++ 0 :: map (fun b => b mod 32) h1) in *.
+  assert (R : forall y, map (fun b => b / 32) h1 ++ x' / 32 :: map (fun b => b / 32) h2 ++
+                0 :: map (fun b => b mod 32) h1 ++ y mod 32 :: map (fun b => b mod 32) h2 ++ data
+              = pre ++ y mod 32 :: (map (fun b => b mod 32) h2 ++ data)).
+  { intros y. unfold pre. rewrite <- !app_assoc. cbn [app]. rewrite <- !app_assoc. reflexivity. }
+  rewrite (R x) in H. rewrite (R x') in E.
+  apply (single_substitution_detected 1 pre (x mod 32) (x' mod 32) (map (fun b => b mod 32) h2 ++ data));
+    try (apply N.mod_lt; lia); [exact Hlo|lia].
 Qed.
